@@ -6,12 +6,16 @@ use vstd::prelude::*;
 verus! {
 //@include shims/core.rs
 //@include shims/alloc_free.rs
+//@include shims/cursor.rs
+//@enum BSVErrors @ src/errors/mod.rs
 //@include spec/hash.rs
 //@enum OpCodes @ src/script/op_codes.rs clone copy partialeq eq
 //@enumtable OpCodes @ src/script/op_codes.rs from_u8
-//@enum ScriptBit @ src/script/script_bit.rs
+//@enum ScriptBit @ src/script/script_bit.rs clonespec
 //@struct Script @ src/script/mod.rs clone
 //@struct Hash @ src/hash/mod.rs clone
+//@enum SigHash @ src/transaction/sighash.rs clone copy partialeq eq
+//@enumtable SigHash @ src/transaction/sighash.rs from_u8
 //@struct HashCache @ src/transaction/sighash.rs clone
 //@struct TxIn @ src/transaction/txin.rs clone
 //@struct TxOut @ src/transaction/txout.rs clone
@@ -19,6 +23,8 @@ verus! {
 //@include spec/script.rs
 //@include spec/script_tok.rs
 //@include spec/tx.rs
+//@include spec/sighash.rs
+//@include shims/varint.rs
 impl HashCache {
 //@fn HashCache::new
 }
@@ -40,6 +46,7 @@ impl Transaction {
 //@fn Transaction::set_output
 //@fn Transaction::add_inputs
 //@fn Transaction::add_outputs
+//@stubrest Transaction
 }
 } // verus!
 fn main() {}
